@@ -30,6 +30,11 @@ def cshl (a b : Nat) : R Nat := if b < 64 then .ok (a * 2 ^ b % W) else .panic
 def wadd (a b : Nat) : R Nat := if a + b < W then .ok (a + b) else .ok ((a + b) % W)
 def wsub (a b : Nat) : R Nat := if b ≤ a then .ok (a - b) else .ok ((a + W - b) % W)
 def wmul (a b : Nat) : R Nat := if a * b < W then .ok (a * b) else .ok (a * b % W)
+/-- the same as plain functions (no monad), for generated code that never traps
+(guarded like the monadic ones, so that the kernel never tries to evaluate `% 2^64` on an open term) -/
+def w64add (a b : Nat) : Nat := if a + b < 18446744073709551616 then a + b else (a + b) % 18446744073709551616
+def w64sub (a b : Nat) : Nat := if b ≤ a then a - b else (a + 18446744073709551616 - b % 18446744073709551616) % 18446744073709551616
+def w64mul (a b : Nat) : Nat := if a * b < 18446744073709551616 then a * b else (a * b) % 18446744073709551616
 def cdiv (a b : Nat) : R Nat := if b = 0 then .panic else .ok (a / b)
 def cmod (a b : Nat) : R Nat := if b = 0 then .panic else .ok (a % b)
 
